@@ -85,6 +85,7 @@ def collect_charge(case, ctx):
     ctx.tag("qe:" + d["kind"], "waveunit:" + wu, "qe_unit:" + d.get("unit", "-"), f"nwave:{len(wave_nm)}",
             "2d_input" if case["squeeze"] else None)
     ctx.nontrivial_if(len(wave_nm) >= 2 and (d["kind"] != "spectrum" or d["unit"] != wu))
+    img = gen.relayout(img, ["C", "F", "strided", "transposed_view"][len(wave_nm) % 4])
     arg = img[0] if case["squeeze"] else img
     if case.get("wave_as_list"):
         wave = wave.tolist()
@@ -257,7 +258,7 @@ def adc(case, ctx):
             "negative" if np.any(img < 0) else None, "frame:" + case["frame_kind"], "dtype:" + str(case["dtype"]),
             "warn" if case["warn"] else None, "sat:none" if sat is None else "sat:set")
     ctx.nontrivial_if(saturates or bool(np.any(img < 0)))
-    frame = img.copy()
+    frame = gen.relayout(img.copy(), ["C", "F", "strided", "reversed"][int(abs(float(np.sum(img)))) % 4])
     before = frame.copy()
     kw = {}
     if case["dtype"] is not None:
